@@ -1,8 +1,11 @@
 #!/usr/bin/env python3
-"""Regenerates MANIFEST.json from props/meta.json (one entry per property)."""
+"""Regenerates MANIFEST.json from props/meta/<ID>.json (one file per property)."""
 import json, os
 HERE = os.path.dirname(os.path.abspath(__file__))
-meta = json.load(open(os.path.join(HERE, "props", "meta.json")))
+meta = {}
+for f in sorted(os.listdir(os.path.join(HERE, "props", "meta"))):
+    if f.endswith(".json"):
+        meta[f[:-5]] = json.load(open(os.path.join(HERE, "props", "meta", f)))
 props = [json.loads(l) for l in open(os.path.join(HERE, "properties.jsonl"))]
 checks, na = [], []
 for p in props:
